@@ -40,6 +40,7 @@ is_bytes_sub = z3.Function("is_bytes_or_subclass", I, B)   # Py_TPFLAGS_BYTES_SU
 blen = z3.Function("bytes_len", I, I)                      # Py_SIZE of a bytes object
 bytes_of = z3.Function("bytes_of", I, z3.ArraySort(I, I))  # ob_sval[0..len] as (signed) chars
 richcmp_obj = z3.Function("richcmp_obj", I, I, I, I)        # PyObject_RichCompare(a, b, op): CPython's result object (0 = NULL)
+NONE_OBJECT = z3.Int("Py_None_object")                     # identity of None (units with the option model_none)
 truth_of = z3.Function("truth_of", I, I)                    # PyObject_IsTrue(x): 1 / 0 / -1
 is_module_string_constant = z3.Function("is_module_string_constant", I, B)
 list_allocated = z3.Function("list_allocated", I, I)   # PyListObject.allocated (slots of ob_item)
@@ -113,6 +114,11 @@ class CExecPyObj(CExecL3):
         name = rd.get("name", "")
         if name.startswith("PyExc_"):
             return CExecL3.global_var(self, st, n)
+        if name == "_Py_NoneStruct" and self.opt.get("model_none"):
+            # opt-in: None is an object identity like any other, so that an argument MAY be None (`x == Py_None` is then decided by the
+            # identities, not by the kind of pointer); without the option an object argument is never None (kernel of those units)
+            st.path.append(NONE_OBJECT >= 1)
+            return ("const", Ptr(node_type(n), "pyobj", NONE_OBJECT))
         if name.endswith("_Type") or name.startswith("_Py_") or name.startswith("Py"):
             ty = node_type(n)
             return ("const", Ptr(ty, "global:" + name, z3.IntVal(0)))
